@@ -31,6 +31,9 @@ impl EdgeLabel for char {
 /// Mapping edge lables to child ids using `BTreeMap`.
 type EdgeMap<L> = alloc::collections::BTreeMap<L, u32>;
 
+/// Set of patterns skipped in leftmost-first construction, kept to detect their repetition.
+type SkippedSet<L> = alloc::collections::BTreeSet<Vec<L>>;
+
 /// State of [`NfaBuilder`].
 #[derive(Clone)]
 pub struct NfaBuilderState<L, V> {
@@ -57,6 +60,7 @@ pub struct NfaBuilder<L, V> {
     pub(crate) outputs: Vec<Output<V>>, // in which common parts are merged.
     pub(crate) len: usize,
     pub(crate) match_kind: MatchKind,
+    skipped: SkippedSet<L>, // patterns shadowed by an earlier proper prefix (leftmost-first only).
 }
 
 impl<L, V> NfaBuilder<L, V>
@@ -73,6 +77,7 @@ where
             outputs: vec![],
             len: 0,
             match_kind,
+            skipped: SkippedSet::<L>::new(),
         }
     }
 
@@ -90,9 +95,12 @@ where
         for &c in pattern {
             if self.match_kind.is_leftmost_first() {
                 // If state_id has an output, the descendants will never searched.
-                let output = &self.states[usize::from_u32(state_id)].borrow().output;
-                if output.is_some() {
-                    return Ok(());
+                let shadowed = self.states[usize::from_u32(state_id)]
+                    .borrow()
+                    .output
+                    .is_some();
+                if shadowed {
+                    return self.skip_shadowed(pattern);
                 }
             }
 
@@ -117,6 +125,26 @@ where
         }
 
         self.len += 1;
+        Ok(())
+    }
+
+    /// Skips a pattern that has an earlier-registered proper prefix in leftmost-first
+    /// construction. Such a pattern is never reported and is not registered, but it is still
+    /// rejected when it repeats an earlier pattern.
+    fn skip_shadowed(&mut self, pattern: &[L]) -> Result<()> {
+        let mut state_id = Some(ROOT_STATE_ID);
+        for &c in pattern {
+            state_id = state_id.and_then(|state_id| self.child_id(state_id, c));
+        }
+        let registered = state_id.map_or(false, |state_id| {
+            self.states[usize::from_u32(state_id)]
+                .borrow()
+                .output
+                .is_some()
+        });
+        if registered || !self.skipped.insert(pattern.to_vec()) {
+            return Err(DaachorseError::duplicate_pattern(format!("{pattern:?}")));
+        }
         Ok(())
     }
 
